@@ -2,13 +2,15 @@
 
 stdin : {"cases": [case, ...], "timeout": seconds per case}
   case = {"dim": d, "pts": [[int,...],...], "mls": int, "strategy": "balanced|fast|random", "seed": int,
-          "dtype": "float|int", "knn": [[Q, k], ...], "rad": [[Q, m], ...]}
+          "dtype": "float|int", "knn": [[Q, k], ...], "rad": [[Q, m], ...],
+          "ambient": [[[x, priority], ...], ...]   (optional: other PriorityQueue objects alive during the run)}
   Coordinates of the points are integers. Query points are given DOUBLED (Q = 2q, so q has half-integer
   coordinates) and the radius of a radius query is r = sqrt(m)/2, i.e. m = (2r)^2.
 stdout: '@@JSON ' + {"obs": [obs, ...]}
   obs = {"status": "ok", "pivots": [2*pivot,...] (what _find_pivot returned, in call order),
          "nodes": [["L", id, axis, [pt idx...], lo, hi] | ["N", id, axis, 2*split_value, left, right, lo, hi]],
-         "knn": [[idx...] | ["error", msg]], "rad": [[idx...] | ["error", msg]]}
+         "knn": [[idx...] | ["error", msg]], "rad": [[idx...] | ["error", msg]],
+         "ambient_after": [sorted [[x, priority], ...] per ambient queue]   (their contents after all queries)}
       | {"status": "timeout", "where": ...} | {"status": "error", "msg": ...}
       | {"status": "skipped"}  (after `max_timeouts` build time-outs in this payload the remaining cases are not run)
   Box bounds are doubled integers or the strings "-inf" / "inf". Everything is doubled so that medians of integer
@@ -42,6 +44,16 @@ def dbl(x):
     return int(y)
 
 
+def plain(x):
+    """A payload as a JSON value (numpy scalars -> python numbers, anything else -> its repr)."""
+    if hasattr(x, "item") and not isinstance(x, (str, bytes)):
+        try:
+            x = x.item()
+        except Exception:  # noqa
+            pass
+    return x if isinstance(x, (int, float, str, bool)) or x is None else repr(x)
+
+
 def run_case(case, timeout):
     import numpy as np
     from mouette.spatial import KDTree
@@ -53,6 +65,16 @@ def run_case(case, timeout):
             p = KDTree._find_pivot(self, pts_ax)
             rec.append(p)
             return p
+
+    # ambient objects: other PriorityQueue instances of the program, holding pending items while the tree is
+    # built and queried (default-constructed, filled through the public API, kept alive until the end)
+    ambient = []
+    for items in case.get("ambient", []):
+        from mouette.utils import PriorityQueue
+        pq = PriorityQueue()
+        for x, w in items:
+            pq.push(x, w)
+        ambient.append(pq)
 
     d = case["dim"]
     dt = float if case.get("dtype", "float") == "float" else int
@@ -101,6 +123,10 @@ def run_case(case, timeout):
         q = np.array(Q, dtype=float) / 2.0
         r = math.sqrt(m) / 2.0
         out["rad"].append(guarded(lambda: tree.query_radius(q, r)))
+    try:
+        out["ambient_after"] = [sorted([[plain(it.x), float(it.priority)] for it in pq.data], key=repr) for pq in ambient]
+    except Exception as ex:  # noqa
+        out["ambient_after"] = ["error", "%s: %s" % (type(ex).__name__, ex)]
     return out
 
 
@@ -115,11 +141,18 @@ def main():
             # enough hangs observed in this shard: do not spend the time budget on more of them
             obs.append({"status": "skipped"})
             continue
-        o = run_case(c, t)
+        try:
+            o = run_case(c, t)
+        except CaseTimeout:
+            o = {"status": "timeout", "where": "outside build/query"}
+        except Exception as ex:  # noqa
+            o = {"status": "error", "msg": "driver: %s: %s" % (type(ex).__name__, ex)}
+        finally:
+            signal.setitimer(signal.ITIMER_REAL, 0)
         if o["status"] == "timeout":
             n_to += 1
         obs.append(o)
-    print("@@JSON " + json.dumps({"obs": obs}))
+    print("@@JSON " + json.dumps({"obs": obs}, default=repr))
 
 
 if __name__ == "__main__":
